@@ -8,6 +8,11 @@ import SmrtVerif.Model.Interface
 import SmrtVerif.Model.CoherentFlat
 import SmrtVerif.Proofs.Fresnel
 import SmrtVerif.Gen.C12
+import SmrtVerif.Proofs.RealTransc
+import Mathlib.Tactic.FieldSimp
+import Mathlib.Tactic.Ring
+import Mathlib.Tactic.Linarith
+import Mathlib.Tactic.LinearCombination
 
 namespace Smrt.Props.C12
 open Smrt Smrt.Fresnel Smrt.Iface
@@ -419,5 +424,87 @@ example : (1:ℝ) * (1 - 0 * 0) = 4 * (1 - Real.sqrt (3 / 4) * Real.sqrt (3 / 4)
 example : (1:ℝ) ≤ 4 * (1 - (1/2) * (1/2)) := by norm_num
 /-- the Choudhury guard is satisfiable (zero roughness) -/
 example (f : ℝ) (e1 : Cx ℝ) : ¬ (0.1 : ℝ) < ksigma f e1 0 := by unfold ksigma; norm_num
+
+/-! ### `coherent_flat`: the loss-free budget closes exactly, whatever the thickness (wave 7) -/
+
+namespace Slab
+open Coherent
+theorem add_re (a b : Cx ℝ) : (a + b).re = a.re + b.re := rfl
+theorem add_im (a b : Cx ℝ) : (a + b).im = a.im + b.im := rfl
+theorem mul_re (a b : Cx ℝ) : (a * b).re = a.re * b.re - a.im * b.im := rfl
+theorem mul_im (a b : Cx ℝ) : (a * b).im = a.re * b.im + a.im * b.re := rfl
+theorem one_re : (one : Cx ℝ).re = 1 := rfl
+theorem one_im : (one : Cx ℝ).im = 0 := rfl
+
+/-- the Airy identity behind the loss-free budget of the slab pseudo-interface: real interface coefficients `r01`, `r1t`
+    (loss-free media, no total reflection), a pure phase `e2kd` (loss-free slab, any thickness - no coherency limit enters),
+    `|ekd| = 1`.  Then `|R|² + |T|² · (1-r01)(1-r1t) / ((1+r01)(1+r1t)) = 1`; the factor is the power factor of the transmitted
+    wave written with the Fresnel coefficients of the two faces. -/
+theorem slab_lossless_core (r01 r1t : ℝ) (ekd e2kd : Cx ℝ) (h2 : e2kd.abs2 = 1) (h1 : ekd.abs2 = 1)
+    (hden : ((one : Cx ℝ) + (⟨r01, 0⟩ : Cx ℝ) * ⟨r1t, 0⟩ * e2kd).abs2 ≠ 0) (ha : 1 + r01 ≠ 0) (hb : 1 + r1t ≠ 0) :
+    (slabR (⟨r01, 0⟩ : Cx ℝ) ⟨r1t, 0⟩ e2kd).abs2
+      + (slabT (⟨r01, 0⟩ : Cx ℝ) ⟨r1t, 0⟩ ekd e2kd).abs2 * ((1 - r01) * (1 - r1t) / ((1 + r01) * (1 + r1t))) = 1 := by
+  unfold slabR slabT
+  rw [abs2_div, abs2_div, abs2_mul, abs2_mul, h1]
+  have hD : ((one : Cx ℝ) + (⟨r01, 0⟩ : Cx ℝ) * ⟨r1t, 0⟩ * e2kd).abs2
+      = 1 + 2 * r01 * r1t * e2kd.re + r01 ^ 2 * r1t ^ 2 := by
+    simp only [Cx.abs2, add_re, add_im, mul_re, mul_im, one_re, one_im] at h2 ⊢
+    linear_combination (r01 ^ 2 * r1t ^ 2) * h2
+  have hN : ((⟨r01, 0⟩ : Cx ℝ) + ⟨r1t, 0⟩ * e2kd).abs2 = r01 ^ 2 + 2 * r01 * r1t * e2kd.re + r1t ^ 2 := by
+    simp only [Cx.abs2, add_re, add_im, mul_re, mul_im] at h2 ⊢
+    linear_combination (r1t ^ 2) * h2
+  have hA : ((one : Cx ℝ) + (⟨r01, 0⟩ : Cx ℝ)).abs2 = (1 + r01) ^ 2 := by
+    simp only [Cx.abs2, add_re, add_im, one_re, one_im]; ring
+  have hB : ((one : Cx ℝ) + (⟨r1t, 0⟩ : Cx ℝ)).abs2 = (1 + r1t) ^ 2 := by
+    simp only [Cx.abs2, add_re, add_im, one_re, one_im]; ring
+  rw [hD] at hden
+  rw [hD, hN, hA, hB]
+  have hK : (1 + r01) ^ 2 * (1 + r1t) ^ 2 * 1 * ((1 - r01) * (1 - r1t) / ((1 + r01) * (1 + r1t)))
+      = (1 - r01 ^ 2) * (1 - r1t ^ 2) := by
+    field_simp
+    ring
+  rw [div_mul_eq_mul_div, ← add_div, hK, div_eq_one_iff_eq hden]
+  ring
+
+/-- `|exp z|² = exp(2 Re z)` for the model's complex exponential -/
+theorem cexp_abs2 (z : Cx ℝ) : (cexp z).abs2 = Real.exp (2 * z.re) := by
+  simp only [cexp, Cx.abs2, transc_exp_real, transc_cos_real, transc_sin_real]
+  have h := Real.cos_sq_add_sin_sq z.im
+  have : Real.exp (2 * z.re) = Real.exp z.re * Real.exp z.re := by rw [← Real.exp_add]; ring_nf
+  rw [this]
+  linear_combination (Real.exp z.re * Real.exp z.re) * h
+
+/-- a loss-free slab (real phase) only shifts phases, whatever its thickness: `|exp_kd| = |exp_2kd| = 1` -/
+theorem pure_phase (f : ℝ) (e0 es : Cx ℝ) (d mu : ℝ) (h : (phase f e0 es d mu).im = 0) :
+    (expKd f e0 es d mu).abs2 = 1 ∧ (exp2Kd f e0 es d mu).abs2 = 1 := by
+  unfold expKd exp2Kd
+  simp only [cexp_abs2, h]
+  constructor <;> norm_num
+
+/-- the H-polarised budget of `CoherentFlat` closes exactly for a loss-free slab between loss-free media, *whatever the thickness*
+    (`_partial`: the two facts about the faces - real Fresnel coefficients, and the power factor written with them - are hypotheses
+    here; `lossless_Rh` / `kyi_real` / `kyt_real` of Proofs/Fresnel.lean give the first one for real permittivities without total
+    reflection).  The oracle checks the conclusion on the code for slabs from λ/60 to 10 λ (key `coherent_flat:lossless`). -/
+theorem coherent_flat_lossless_H_partial (f : ℝ) (e0 es et : Cx ℝ) (d mu r01 r1t : ℝ)
+    (h01 : rh e0 es mu = ⟨r01, 0⟩) (h1t : rh es et (muClamped e0 es mu) = ⟨r1t, 0⟩)
+    (hph : (phase f e0 es d mu).im = 0)
+    (hK : muT e0 es et mu / mu * nt e0 et = (1 - r01) * (1 - r1t) / ((1 + r01) * (1 + r1t)))
+    (hden : ((one : Cx ℝ) + (⟨r01, 0⟩ : Cx ℝ) * ⟨r1t, 0⟩ * exp2Kd f e0 es d mu).abs2 ≠ 0) (ha : 1 + r01 ≠ 0) (hb : 1 + r1t ≠ 0) :
+    specH f e0 es et d mu + transH f e0 es et d mu = 1 := by
+  obtain ⟨h1, h2⟩ := pure_phase f e0 es d mu hph
+  have key := slab_lossless_core r01 r1t (expKd f e0 es d mu) (exp2Kd f e0 es d mu) h2 h1 hden ha hb
+  unfold specH transH Coherent.Rh Thc
+  rw [h01, h1t]
+  have : (slabT (⟨r01, 0⟩ : Cx ℝ) ⟨r1t, 0⟩ (expKd f e0 es d mu) (exp2Kd f e0 es d mu)).abs2 * muT e0 es et mu / mu * nt e0 et
+       = (slabT (⟨r01, 0⟩ : Cx ℝ) ⟨r1t, 0⟩ (expKd f e0 es d mu) (exp2Kd f e0 es d mu)).abs2 * (muT e0 es et mu / mu * nt e0 et) := by ring
+  rw [this, hK]
+  exact key
+
+/-- the hypotheses of the core identity are satisfiable by a non-trivial slab: `r01 = 0.3`, `r1t = 0.2`, a quarter-wave phase -/
+example : (⟨0, 1⟩ : Cx ℝ).abs2 = 1 ∧ ((one : Cx ℝ) + (⟨0.3, 0⟩ : Cx ℝ) * ⟨0.2, 0⟩ * ⟨0, 1⟩).abs2 ≠ 0 ∧ (1 : ℝ) + 0.3 ≠ 0 ∧ (1 : ℝ) + 0.2 ≠ 0 := by
+  refine ⟨by simp [Cx.abs2], ?_, by norm_num, by norm_num⟩
+  simp only [Cx.abs2, add_re, add_im, mul_re, mul_im, one_re, one_im]
+  norm_num
+end Slab
 
 end Smrt.Props.C12
